@@ -9119,6 +9119,10 @@ class SVG(Group):
                     del values[SVG_ATTR_CLASS]
                 if SVG_ATTR_CLIP_PATH in values:
                     del values[SVG_ATTR_CLIP_PATH]
+                # Position and size state where this very element is, never where its children are.
+                for attr in (SVG_ATTR_X, SVG_ATTR_Y, SVG_ATTR_WIDTH, SVG_ATTR_HEIGHT):
+                    if attr in values:
+                        del values[attr]
 
                 attributes = dict(elem.attrib)  # priority; lowest
                 attributes[SVG_ATTR_TAG] = tag
